@@ -778,18 +778,27 @@ class C17(Property):
         "detached", "detached_history",
         "WF_step", "NoShared_step", "inv_run",
         "C17_full_fails", "C17_full_fails_shared", "C17_full_fails_mi", "read_is_overlay_fails_mi",
+        "refine_step", "Inv_step", "refine_run", "read_is_overlay_all",
+        "c17_histories_from", "c17_histories_partial", "c17_results_partial",
+        "histGuard_rejects_witnesses", "witnesses_trip_own_guard",
     )]
-    level_text = "proof (partial: sentence 1 over histories is refuted in full and not proved in guarded form)"
+    level_text = "proof (partial: sentence 1 over histories is refuted in full and proved for all histories outside the three open findings)"
     level_note = ("PROVED for every store/history of the model: non-interference (no_upward_leak, step_untouched, "
-                  "no_upward_leak_history), reading = overlay of the frames of the chain (read_is_overlay_*, a statement about a "
-                  "state: the layers are the model's own frames), dict semantics of every method through class AND instance "
-                  "views — state change (dict_semantics_*), order-free results (dict_result_*), iterating reads "
-                  "(iter_result_*, instance views under the local-storage Nodup invariant iWrite_nodup) —, downward "
-                  "visibility, detachment.  REFUTED: C17_Full (every history reads as the layered store of the property text) "
-                  "— three negation witnesses = KF-C17-a/b/c.  NOT PROVED: the guarded form of C17_Full (histories without "
-                  "the three finding classes): the one-step refinement abs(step σ c) = Spec.step (abs σ) c is evaluated at run "
-                  "time only (Run/C17.lean stepAgrees, on every step of every generated history outside the guards) and by "
-                  "the Python reference overlay")
+                  "no_upward_leak_history), reading = overlay of the frames of the chain (read_is_overlay_*, read_is_overlay_all), "
+                  "dict semantics of every method through class AND instance views — state change (dict_semantics_*), "
+                  "order-free results (dict_result_*), iterating reads (iter_result_*) —, downward visibility, detachment.  "
+                  "REFUTED: C17_Full (every history reads as the layered store of the property text) — three negation "
+                  "witnesses = KF-C17-a/b/c.  PROVED in guarded form: c17_histories_partial (= C17_Partial: C17_Full under the "
+                  "decidable guard histGuard, evaluated command by command in the state the command runs in: CmdOK (an MRO "
+                  "tail lists no class twice), NoSharing (KF-C17-b), not badClear (KF-C17-a), miGuard (KF-C17-c: the class a "
+                  "class X(b1, b2, …) statement creates resolves properties coherently along its chain)) — after every such "
+                  "history every view, existing or not, reads exactly as the layered reference after the same history; by the "
+                  "one-step refinement refine_step: abs (step σ c) = Spec.step (abs σ) c under the invariant Inv (WF, NoShared, "
+                  "AllCoherent; Inv_step), lifted by refine_run.  c17_results_partial: after every guarded history the next "
+                  "method call through any class / attached-instance view returns what a dict holding the reference mapping "
+                  "returns.  histGuard_rejects_witnesses / witnesses_trip_own_guard: each of the three negation witnesses is "
+                  "rejected by its own guard component only.  The run-time check stepAgrees of Run/C17.lean is now redundant "
+                  "with refine_step (kept as a cross-check of the compiled model)")
     technique = "Lean 4 model + invariants + refinement to a layered-store specification; differential testing against /repo"
     trusted_base = [
         "Python's class machinery (type(), __mro__, attribute lookup of data descriptors, instance __dict__) is the "
